@@ -338,7 +338,7 @@ func C20(p *load.Prog, r *oblig.Run) {
 		r.Add("R20.a", "anchor", "-", "anchor").Unknown("Document.Warnings not found")
 		return
 	}
-	g := cg.New(p, r.Tier == "thorough")
+	g := cg.New(p, false)
 	reach := g.ReachFrom([]cg.Target{{Fn: dw}}, cg.Options{})
 	ctors := []string{"NewChildBornBeforeParentWarning", "NewSiblingsBornTooCloseWarning", "NewMarriedOutOfRangeWarning", "NewIndividualTooOldWarning",
 		"NewIncorrectEventOrderWarning", "NewUnparsableDateWarning", "NewMultipleSexesWarning", "NewInverseSpousesWarning"}
